@@ -404,6 +404,16 @@ class Rewriter:
                 out.append(T('ident', 'to_str_', t.start))
                 k += 1
                 continue
+            if is_id(t, 'unwrap') and prv_out() is not None and is_p(prv_out(), '.') and nxt(k) < n and is_p(toks[nxt(k)], '('):
+                out.append(T('ident', 'unwrap_', t.start))
+                self.rec('R11', '.unwrap()', '.unwrap_()')
+                k += 1
+                continue
+            if is_id(t, 'sort_by') and prv_out() is not None and is_p(prv_out(), '.'):
+                out.append(T('ident', 'sort_by_', t.start))
+                self.rec('R5', '.sort_by(', '.sort_by_(')
+                k += 1
+                continue
             if is_id(t, 'to_owned') and prv_out() is not None and is_p(prv_out(), '.'):
                 out.append(T('ident', 'clone', t.start))
                 self.rec('R5', '.to_owned()', '.clone()')
@@ -558,6 +568,7 @@ class FnSpec:
         self.patches = []        # (before, after) literal source patches declared for this fn
         self.opts = {}
         self.files = []
+        self.after_let = {}      # local name -> proof lines inserted after the statement `let NAME ...;`
 
 
 LABEL = re.compile(r'^\s*@([A-Za-z0-9_.\-]+)\s*(\[([A-Z0-9, ]*)\])?\s*$')
@@ -678,6 +689,18 @@ def parse_spec(path, into=None):
                 mode = ('loop', mode[1])
             else:
                 cur.loops[mode[1]][mode[2]].append(line)
+            continue
+        if st.startswith('after_let ') and mode != 'body':
+            flush()
+            nm_ = st.split()[1]
+            cur.after_let.setdefault(nm_, [])
+            mode, target = ('afterlet', nm_), None
+            continue
+        if mode and mode[0] == 'afterlet':
+            if st == 'end':
+                mode = None
+            else:
+                cur.after_let[mode[1]].append(line)
             continue
         if st == 'body':
             flush()
